@@ -51,13 +51,17 @@ def lines_of(inp):
     return out
 
 
-def check_diff(left, right):
-    """left/right: a string or a list of strings, exactly what is handed to diffLines."""
+def check_diff(left, right, same_objects=False, history=None):
+    """left/right: a string or a list of strings, exactly what is handed to diffLines (with same_objects the caller's own list objects are
+    handed over, as a host that keeps and edits its arrays does)."""
     fn, options = diff_fn()
-    detail = {'kind': 'diff', 'left': left, 'right': right}
+    detail = {'kind': 'diff', 'left': list(left) if isinstance(left, list) else left, 'right': list(right) if isinstance(right, list) else right}
+    if history:
+        detail['history'] = history
     L, R = lines_of(left), lines_of(right)
-    arg_l = list(left) if isinstance(left, list) else left
-    arg_r = list(right) if isinstance(right, list) else right
+    arg_l = (left if same_objects else list(left)) if isinstance(left, list) else left
+    arg_r = (right if same_objects else list(right)) if isinstance(right, list) else right
+    left, right = detail['left'], detail['right']
     try:
         res = fn([arg_l, arg_r], options)
     except Exception as e:  # pylint: disable=broad-except
@@ -157,7 +161,7 @@ def pair_strategy(draw):
         else:
             right.append(other)
     right.extend(draw(st.lists(LINE, max_size=3)))
-    mode = draw(st.sampled_from(['list', 'lf', 'crlf', 'chunks', 'mixed', 'regroup']))
+    mode = draw(st.sampled_from(['list', 'lf', 'crlf', 'chunks', 'mixed', 'mixed2', 'regroup']))
     if mode == 'regroup':
         # the same atoms cut into the same NUMBER of lines at different places, the atoms of a line glued with a separator a careless comparison
         # might itself use to glue lines (backslash-n as two characters, comma, NUL, ...): equal "joined" texts, different line lists
@@ -179,6 +183,8 @@ def pair_strategy(draw):
         return nl.join(left), nl.join(right)
     if mode == 'mixed':
         return '\n'.join(left), list(right)
+    if mode == 'mixed2':
+        return list(left), '\r\n'.join(right)
 
     def chunks(lines):
         out, i = [], 0
@@ -223,7 +229,17 @@ def run_shard(ctx, spec):
 
     def prop(pair):
         left, right = pair
-        L, R = check_diff(left, right)
+        if isinstance(left, list) and isinstance(right, list) and left and (len(left) + len(right)) % 3 == 0:
+            # the host keeps its arrays and edits them in place between calls: the same list objects, same lengths, other contents
+            first = [list(left), list(right)]
+            check_diff(left, right, same_objects=True)
+            i = len(right) % len(left)
+            left[i] = left[i] + '!' if len(left[i]) % 2 else 'edited'
+            if right:
+                right[len(left) % len(right)] = 'R' + right[len(left) % len(right)]
+            L, R = check_diff(left, right, same_objects=True, history=first)
+        else:
+            L, R = check_diff(left, right)
         mode = 'array' if isinstance(left, list) and isinstance(right, list) and all('\n' not in x for x in left + right) else (
             'string' if isinstance(left, str) and isinstance(right, str) else 'chunks/mixed')
         if isinstance(left, str) and '\r\n' in left:
@@ -236,5 +252,12 @@ def run_shard(ctx, spec):
 def replay(detail):
     if detail.get('kind') == 'script':
         check_script(detail['name'])
+    elif detail.get('history'):
+        h = detail['history']
+        left, right = list(h[0]), list(h[1])
+        check_diff(left, right, same_objects=True)
+        left[:] = detail['left']
+        right[:] = detail['right']
+        check_diff(left, right, same_objects=True, history=h)
     else:
         check_diff(detail['left'], detail['right'])
